@@ -47,6 +47,15 @@ impl Housekeeper {
     }
 
     pub(crate) fn try_sync<T: InnerSync>(&self, cache: &T) -> bool {
+        #[cfg(mini_moka_verif)]
+        {
+            crate::verif::sp("hk.before_cas");
+            // Fault point: behave as if another thread had won the flag.
+            if crate::verif::buggify("hk.contended") {
+                crate::verif::probe("hk.lost", 0);
+                return false;
+            }
+        }
         // Try to flip the value of sync_scheduled from false to true.
         match self.is_sync_running.compare_exchange(
             false,
@@ -55,16 +64,34 @@ impl Housekeeper {
             Ordering::Relaxed,
         ) {
             Ok(_) => {
+                #[cfg(mini_moka_verif)]
+                crate::verif::sp("hk.won");
                 let now = cache.now();
                 self.sync_after.set_instant(Self::sync_after(now));
 
                 cache.sync(MAX_SYNC_REPEATS);
 
+                #[cfg(mini_moka_verif)]
+                {
+                    crate::verif::probe("hk.synced", 0);
+                    crate::verif::sp("hk.after_sync");
+                }
                 self.is_sync_running.store(false, Ordering::Release);
                 true
             }
+            #[cfg(mini_moka_verif)]
+            Err(_) if crate::verif::active() => {
+                crate::verif::probe("hk.lost", 0);
+                false
+            }
             Err(_) => false,
         }
+    }
+
+    /// Re-bases the periodic-sync deadline on a simulated clock.
+    #[cfg(mini_moka_verif)]
+    pub(crate) fn verif_rebase(&self, now: Instant) {
+        self.sync_after.set_instant(Self::sync_after(now));
     }
 
     fn sync_after(now: Instant) -> Instant {
